@@ -37,6 +37,23 @@ BRICKS = {
                           proofs3d=["C43Proofs_bnhi_3d.v"], post3d=["Properties_C43_bnhi_3d.v"]),
     "C43Elasticity": dict(tag="bela", tens=[], scal=[], proofs=["C43Proofs_bela.v"], post=["Properties_C43_bela.v"],
                           proofs3d=["C43Proofs_bela_3d.v"], post3d=["Properties_C43_bela_3d.v"]),
+    # ---- added in the fourth round (Coq proofs in the thorough tier; the quick tier instantiates, compares Sym vs double and differentiates numerically)
+    "C43NortonMisesPower": dict(tag="bnpw", tens=[], scal=["p"], proofs=[]),
+    "C43PlasticMisesChaboche2012": dict(tag="bpch", tens=["khr_a_0"], scal=["p"], proofs=[], extra='#define BEH_TENSOR_SCALE 2e-2\n'),
+    "C43PlasticMisesBurletCailletaud": dict(tag="bpbc", tens=["khr_a_0"], scal=["p"], proofs=[], extra='#define BEH_TENSOR_SCALE 2e-3\n'),
+    "C43HyperbolicSineMisesLinear": dict(tag="bhsl", tens=[], scal=["p"], proofs=[]),
+    "C43HyperbolicSineMises": dict(tag="bhsm", tens=[], scal=["p"], proofs=[]),
+    "C43UserDefinedMises": dict(tag="budm", tens=[], scal=["p"], proofs=[]),
+    "C43TwoFlows": dict(tag="btwo", tens=["khr_a0_0", "khr_a0_1"], scal=["p0", "p1"], proofs=[]),
+    "C43PlasticDrucker": dict(tag="bpdr", tens=[], scal=["p"], proofs=[]),
+    "C43PlasticCazacu2004Iso": dict(tag="bpci", tens=[], scal=["p"], proofs=[]),
+    "C43PlasticCazacu2001": dict(tag="bpc1", tens=[], scal=["p"], proofs=[], hyps=("h3d", "h3d")),
+    "C43PlasticCazacu2004Ortho": dict(tag="bpco", tens=[], scal=["p"], proofs=[], hyps=("h3d", "h3d")),
+    # eigen-based criteria (eigen_solver: Jacobi): execution only, a part of the states have two equal principal stresses at the iterate
+    "C43PlasticHosford": dict(tag="bhos", tens=[], scal=["p"], proofs=[], hyps=("hag,h3d", "hag,hpe,h3d"), double_only=True,
+                              extra='#define BEH_EIGEN_TIES\n', min_ties=(30, 60)),
+    "C43PlasticBarlat": dict(tag="bbar", tens=[], scal=["p"], proofs=[], hyps=("hag,h3d", "hag,hpe,h3d"), double_only=True,
+                             extra='#define BEH_EIGEN_TIES\n', min_ties=(30, 60)),
     # execution only (asin/cos based criterion with a corner rounding: not traced)
     "C43MohrCoulomb": dict(tag="bmc", tens=[], scal=["p"], proofs=[], hyps=("h3d", "h3d"), double_only=True,
                            extra='#define BEH_MC_LODET 0.436332312998582\n', min_corner=(25, 60)),
@@ -48,6 +65,10 @@ HYP_FLAG = {"hag": "-DBRICK_HAG", "hpe": "-DBRICK_HPE", "h3d": "-DBRICK_H3D"}
 def main(c):
     from concurrent.futures import ThreadPoolExecutor
     names = list(BRICKS)
+    only = os.environ.get("VERIF_C43_ONLY", "")
+    if only:  # testing aid: restrict the run to some configurations (tags); never set in normal runs
+        names = [n for n in names if BRICKS[n]["tag"] in only.split(",")]
+        c.notes.append("TESTING AID ACTIVE: VERIF_C43_ONLY=%s" % only)
     gdir = os.path.join(c.work, "gen")
     gbeh.mfront_generate(c, [os.path.join(HERE, "mfront", n + ".mfront") for n in names], gdir)
     c.log("mfront done")
